@@ -554,6 +554,22 @@ fn register_lock(site: &'static Location<'static>, is_mutex: bool) -> usize {
   })
 }
 
+/// with the lock log on, a lock created inside a run is registered (and announced) at creation, so that the log tells
+/// the creation order of locks made at the same source line (e.g. the slots of one Observer)
+fn created(site: &'static Location<'static>, is_mutex: bool) -> Option<usize> {
+  let me = active()?;
+  let on = with_rt(|rt| rt.log_locks);
+  if !on {
+    return None;
+  }
+  let i = register_lock(site, is_mutex);
+  with_rt(|rt| {
+    let s = rt.locks[i].site.clone();
+    rt.ev(me, format!("{{\"ev\":\"lk\",\"op\":\"new\",\"lock\":{},\"site\":\"{}\"}}", i, s));
+  });
+  Some(i)
+}
+
 struct LockId {
   site: &'static Location<'static>,
   // (run-local id); registered lazily on first use inside a run
@@ -638,7 +654,8 @@ pub struct RwLockWriteGuard<'a, T> {
 impl<T> RwLock<T> {
   #[track_caller]
   pub fn new(t: T) -> RwLock<T> {
-    RwLock { inner: ss::RwLock::new(t), id: LockId { site: Location::caller(), id: ss::Mutex::new(None) } }
+    let site = Location::caller();
+    RwLock { inner: ss::RwLock::new(t), id: LockId { site, id: ss::Mutex::new(created(site, false)) } }
   }
   pub fn read(&self) -> LockResult<RwLockReadGuard<'_, T>> {
     match active() {
@@ -825,7 +842,8 @@ pub struct MutexGuard<'a, T> {
 impl<T> Mutex<T> {
   #[track_caller]
   pub fn new(t: T) -> Mutex<T> {
-    Mutex { inner: ss::Mutex::new(t), id: LockId { site: Location::caller(), id: ss::Mutex::new(None) } }
+    let site = Location::caller();
+    Mutex { inner: ss::Mutex::new(t), id: LockId { site, id: ss::Mutex::new(created(site, true)) } }
   }
   pub fn lock(&self) -> LockResult<MutexGuard<'_, T>> {
     match active() {
